@@ -156,3 +156,45 @@ func VerifC06History(h *verifh.H) {
 	h.Assert(vJoin(vRelPairs(all)) == vJoin(fullBefore), "a paged query continued after later writes returns the result set as of its pinned instant :: paged="+vJoin(vRelPairs(all))+" asof="+vJoin(fullBefore))
 	h.Observe("seq", hs.g.seq)
 }
+
+// VerifC06LockWait: a writer (batch or transaction) has to wait for the
+// dataset's write lock while an observer takes an instant t and the
+// current-state answers; the writer then commits. The answers as of t are
+// still what the observer saw: a write that commits after t is not stamped
+// before t. (The window in which a writer already holds the lock and has not
+// committed yet is not covered: its stamp is taken at the start of the locked
+// section by design.)
+func VerifC06LockWait(h *verifh.H) {
+	hs := vNewHistory(h, "d1", "d2")
+	first := &mVersion{ID: "ns0:e1", Props: map[string]string{"ns0:v": "x"}, Refs: map[string][]string{"ns0:p1": {"ns0:e2"}}}
+	h.Assert(hs.dss["d1"].StoreEntities([]*Entity{mkEntity(first)}) == nil, "first write")
+	next := drawVersion(h, []string{"ns0:e1", "ns0:e2"}, []string{"ns0:e2", "ns0:e3"}, famSmall)
+	asTxn := h.Choice("asTxn", 2) == 1
+	ds := hs.dss["d1"]
+	ds.WriteLock.Lock() // another writer is busy with d1
+	var werr error
+	h.Go(func() {
+		if asTxn {
+			werr = hs.hub.Store.ExecuteTransaction(&Transaction{DatasetEntities: map[string][]*Entity{"d1": {mkEntity(next)}, "d2": {mkEntity(next)}}})
+		} else {
+			werr = ds.StoreEntities([]*Entity{mkEntity(next)})
+		}
+	})
+	if !h.Symbolic() {
+		time.Sleep(100 * time.Millisecond) // natively: let the writer reach the lock
+	} else {
+		h.Yield()
+	}
+	sn := hs.vEvalNow(h)
+	sn.t = time.Now().UnixNano()
+	if !h.Symbolic() {
+		time.Sleep(2 * time.Millisecond)
+	}
+	ds.WriteLock.Unlock()
+	h.Assert(h.Wait(), "the waiting writer completes")
+	h.Assert(werr == nil, "the waiting write is accepted")
+	at := hs.vEvalAt(h, sn.t)
+	h.Assert(vJoin(at.lookups) == vJoin(sn.lookups), "lookup as of an instant at which a writer was waiting for the lock equals the answer given then :: then="+vJoin(sn.lookups)+" now="+vJoin(at.lookups))
+	h.Assert(vJoin(at.rels) == vJoin(sn.rels), "relationship query as of an instant at which a writer was waiting for the lock equals the answer given then :: then="+vJoin(sn.rels)+" now="+vJoin(at.rels))
+	h.Observe("asTxn", asTxn)
+}
